@@ -14,6 +14,7 @@ import hashlib
 import os
 import shutil
 import subprocess
+import time
 
 from .common import CACHE, REPO, CheckError, log
 
@@ -94,8 +95,12 @@ def get(flavour="hook", repo=REPO):
                 if o != d and not o.endswith(".tmp")]
         olds.sort(key=lambda o: os.path.getmtime(o), reverse=True)
         keep = int(os.environ.get("VERIF_CACHE_KEEP", "3"))
+        # ... but never one that was handed out during the last hours: a long (thorough) run of another check may
+        # still be executing its binaries while the working tree has moved on
+        now = time.time()
         for old in olds[keep:]:
-            shutil.rmtree(old, ignore_errors=True)
+            if now - os.path.getmtime(old) > 4 * 3600:
+                shutil.rmtree(old, ignore_errors=True)
         if os.path.isdir(d):
             os.utime(d, None)
         marker = os.path.join(d, ".verif-fallback")
